@@ -140,10 +140,16 @@ def isPlainWord (s : String) : Bool :=
   | [] => false
   | c :: cs => isWordStart c && cs.all isWordChar
 
-/-- a name that `Format` prints with `%s`, unquoted: what the tokenizer makes of it -/
+/-- keyword lookup by characters (kept on `List Char` so that it evaluates inside the kernel) -/
+def lookupChars {α : Type} (cs : List Char) : List (String × α) → Option α
+  | [] => none
+  | (k, v) :: rest => if k.toList = cs then some v else lookupChars cs rest
+
+/-- a name that `Format` prints with `%s`, unquoted: what the tokenizer makes of it (it lower-cases the word and
+    looks it up in `keywords`) -/
 def rawWord (s : String) : List Tok :=
   if isPlainWord s then
-    match lookup s.toLower Gen.keywords with
+    match lookupChars (s.toList.map Char.toLower) Gen.keywords with
     | some (.nrkw v) => [Tok.nrkw v]
     | some t => [t]
     | none => [Tok.id s]
@@ -179,7 +185,7 @@ def printColName (q2 q1 name : String) : List Tok :=
   Fmt.run Gen.fmt_ColName [("node.Qualifier", printTableName q2 q1), ("node.Name", printId name)]
     [("!node.Qualifier.IsEmpty()", !(q1 == "" && q2 == ""))]
 
-def isRand (name : String) : Bool := name.toLower == "rand"
+def isRand (name : String) : Bool := name.toList.map Char.toLower == "rand".toList
 
 def Expr.isUnary : Expr → Bool
   | .un _ _ => true
